@@ -331,7 +331,8 @@ class C02(Prop):
             "message length < 16, count != flowsets), truncations, stray tail bytes, garbage; non-trivial = at least one packet decoded; distinct by hash")
 
     def cases(self, rng, tables, n, tier):
-        return [gen.large_buffer_case(rng, tables), gen.many_packets_case(rng, tables)] + [mixed_case(rng, tables) for _ in range(n)]
+        big = [gen.many_packets_case(rng, tables, n=2600)] if tier == "thorough" else []
+        return [gen.large_buffer_case(rng, tables), gen.many_packets_case(rng, tables)] + big + [mixed_case(rng, tables) for _ in range(n)]
 
     def oracle(self, case, obs, crash, tables):
         return oracle.c02(case, obs, crash)
@@ -369,7 +370,8 @@ class C11(Prop):
             "least two packets decoded; distinct by hash")
 
     def cases(self, rng, tables, n, tier):
-        return [gen.large_buffer_case(rng, tables), gen.many_packets_case(rng, tables)] + [partition_case(rng, tables) for _ in range(max(1, n // 3))]
+        big = [gen.many_packets_case(rng, tables, n=2600)] if tier == "thorough" else []
+        return [gen.large_buffer_case(rng, tables), gen.many_packets_case(rng, tables)] + big + [partition_case(rng, tables) for _ in range(max(1, n // 3))]
 
     def budget(self, tier):
         return 600 if tier == "quick" else 15000
@@ -575,6 +577,7 @@ class C06(Prop):
         out.append(c)
         if tier == "thorough":
             out.append(gen.fill_caches_case())
+            out.append(gen.expiry_case())
         for i in range(n):
             if i % 3 == 0:
                 # fully conformant streams over 2-3 parsers sharing template ids with different
